@@ -258,10 +258,10 @@ Lemma finish_eq (s : istate pv) (job : Z) :
     = iout (imap_finish s) job.
 Proof.
   unfold imap_finish, at_length, iout, embi.
-  destruct (i_length s) as [n|]; imred.
-  - destruct (i_index s =? n); imred; [|reflexivity].
+  destruct (i_length s) as [n|] eqn:El; imred.
+  - destruct (i_index s =? n); imred; [|rewrite El; reflexivity].
     destruct (i_incache s); reflexivity.
-  - reflexivity.
+  - rewrite El. reflexivity.
 Qed.
 
 Lemma gen_iset_length_eq : forall (s : istate pv) (job n : Z),
@@ -282,37 +282,39 @@ Proof.
   unfold embi. destruct obj; try discriminate; imred; reflexivity.
 Qed.
 
+Ltac imcbn :=
+  cbn [embi if_truth bindv bindo truth py_add py_eq arith as_int negb
+       IM.items_append IM.unsorted_set IM.noop
+       IM.f_self__index IM.f_self__length IM.f_self__ready IM.f_self__job
+       IM.g_items IM.g_unsorted IM.g_incache
+       IM.set_self__index IM.set_self__length IM.set_self__ready IM.set_self__job
+       i_items i_index i_length i_ready i_unsorted i_incache].
+
 Lemma gen_iset_eq : forall (s : istate pv) (job i : Z) (obj : pv),
     is_err obj = None ->
     IM.iset (embi s job) (PInt i) obj = iout (imap_set s i obj) job.
 Proof.
   intros s job i obj Hobj. unfold IM.iset, imap_set.
-  assert (Hb : forall (v : pv) (st0 : IM.st) (k : pv -> outcome IM.st pv), bindv obj st0 k = k obj)
+  assert (Hb : forall (st0 : IM.st) (k : pv -> outcome IM.st pv), bindv obj st0 k = k obj)
     by (intros; destruct obj; try discriminate; reflexivity).
-  unfold embi at 1. cbn [IM.f_self__index]. unfold py_eq at 1. cbn [as_int if_truth truth].
-  destruct (i_index s =? i) eqn:Ei.
-  - rewrite (Hb PNone). unfold IM.items_append at 1. cbn [bindo].
-    cbn [IM.f_self__index IM.f_self__length IM.f_self__ready IM.f_self__job IM.g_items
-         IM.g_unsorted IM.g_incache]. unfold py_add at 1. cbn [arith as_int bindv].
-    unfold IM.set_self__index at 1.
-    cbn [IM.f_self__index IM.f_self__length IM.f_self__ready IM.f_self__job IM.g_items
-         IM.g_unsorted IM.g_incache].
-    change (IM.mk_st (PInt (i_index s + 1)) (optv (i_length s)) (PBool (i_ready s)) (PInt job)
-                     (i_items s ++ [obj]) (i_unsorted s) (i_incache s))
-      with (ist (i_index s + 1) (optv (i_length s)) (PBool (i_ready s)) job
-                (i_items s ++ [obj]) (i_unsorted s) (i_incache s)).
+  imcbn. destruct (i_index s =? i) eqn:Ei; imcbn.
+  - rewrite Hb. imcbn.
+    match goal with
+    | |- context [while_loop ?f ?c ?b ?st0] =>
+        change (while_loop f c b st0)
+          with (while_loop f IM.unsorted_has b
+                  (ist (i_index s + 1) (optv (i_length s)) (PBool (i_ready s)) job
+                       (i_items s ++ [obj]) (i_unsorted s) (i_incache s)))
+    end.
     rewrite (im_while_drain _ (optv (i_length s)) (PBool (i_ready s)) job (i_incache s)).
     + destruct (drain (length (i_unsorted s)) (i_items s ++ [obj]) (i_index s + 1) (i_unsorted s))
         as [[items' idx'] d'].
-      cbn [bindo]. unfold IM.noop at 1. cbn [bindo].
       rewrite <- (finish_eq (mk_ist items' idx' (i_length s) (i_ready s) d' (i_incache s)) job).
       reflexivity.
-    + intros idx items d o Hg. unfold ist. imred. rewrite Hg. reflexivity.
+    + intros idx items d o Hg. unfold ist. imcbn. unfold IM.unsorted_move. imcbn.
+      rewrite Hg. reflexivity.
     + apply le_n.
-  - unfold bindv at 1. rewrite (Hb PNone). unfold IM.unsorted_set at 1. cbn [bindo].
-    cbn [IM.f_self__index IM.f_self__length IM.f_self__ready IM.f_self__job IM.g_items
-         IM.g_unsorted IM.g_incache].
-    rewrite dremove_eq.
+  - rewrite Hb. imcbn. rewrite dremove_eq.
     rewrite <- (finish_eq (mk_ist (i_items s) (i_index s) (i_length s) (i_ready s)
                                   (dict_set (i_unsorted s) i obj) (i_incache s)) job).
     reflexivity.
